@@ -9,9 +9,10 @@
 
      fail panic   : the parser panicked                                   (never allowed)
      fail hang    : no answer within the full budget although the expression is not
-                    grammatical or its DNFSize is <= Cap                  (total + prompt)
+                    grammatical or of moderate size (DNFSize <= Cap and DNFVolume <= VolCap)
+                                                                          (total + prompt)
      fail nondet  : two parses of the same text differ
-     info skipped : no answer, DNFSize > Cap (outside the promptness claim)
+     info skipped : no answer, not of moderate size (outside the promptness claim)
      info inconclusive : no answer within a REDUCED budget (driver degraded after a flood)
      nc   ...     : the model of the grammar disagrees with the real lexer/parser
                     (non-conformance of the specification, never a verdict on the code)
@@ -29,14 +30,15 @@ G == INSTANCE QueryGrammar WITH Mode <- "tokens", MaxLen <- 0, Seed <- 0, VK <- 
 Trace == ndJsonDeserialize("parser_trace.ndjson")
 N == Len(Trace)
 
-Say(r, cls, what, size) ==
-    PrintT("@@J" \o ToJson([cls |-> cls, what |-> what, id |-> r.id, case |-> r.case, size |-> size]))
-Chk(cond, r, cls, what, size) == cond \/ Say(r, cls, what, size)
+Say(r, cls, what, j) ==
+    PrintT("@@J" \o ToJson([cls |-> cls, what |-> what, id |-> r.id, case |-> r.case, size |-> j.size, vol |-> j.vol]))
+\* (IF, not \/ : inside an action TLC would explore both sides of a disjunction)
+Chk(cond, r, cls, what, j) == IF cond THEN TRUE ELSE Say(r, cls, what, j)
 
 Check(r) ==
-    LET j     == IF r.lexok THEN G!Judge(r.ltoks) ELSE [syn |-> FALSE, size |-> 0]
-        small == ~j.syn \/ j.size <= G!Cap
-        z     == j.size
+    LET j     == IF r.lexok THEN G!Judge(r.ltoks) ELSE [syn |-> FALSE, size |-> 0, vol |-> 0]
+        small == ~j.syn \/ G!Moderate(j)
+        z     == j
     IN
     \* ---- the property ----
     /\ Chk(r.verdict # "panic", r, "fail", "panic", z)
@@ -49,7 +51,9 @@ Check(r) ==
     /\ Chk(~(r.verdict = "ok") \/ j.syn, r, "nc", "grammar", z)
     /\ Chk(~(r.canon /\ r.gwf = "yes" /\ r.verdict = "err"), r, "nc", "wf-yes-but-error", z)
     /\ Chk(~(r.canon /\ r.gwf = "no" /\ r.verdict = "ok"), r, "nc", "wf-no-but-ok", z)
-    /\ Chk(~(r.verdict = "ok" /\ j.syn /\ z <= G!Cap) \/ r.nconds <= G!Max2(1, z), r, "nc", "size-bound", z)
+    /\ Chk(~(r.verdict = "ok" /\ j.syn /\ j.size <= G!Cap) \/ r.nconds <= G!Max2(1, j.size), r, "nc", "size-bound", z)
+    \* ---- observations for the evidence: answers that needed more than half a second of CPU ----
+    /\ Chk(~(r.verdict \in {"ok", "err"} /\ r.cpu >= 500), r, "info", "slow", z)
 
 TraceInit == /\ lo \in {c * Chunk : c \in 0 .. ((N - 1) \div Chunk)}
              /\ l = lo
@@ -57,7 +61,7 @@ TraceInit == /\ lo \in {c * Chunk : c \in 0 .. ((N - 1) \div Chunk)}
 
 TraceNext == /\ l < hi
              /\ l' = l + 1
-             /\ Check(Trace[l + 1])
+             /\ Check(Trace[l + 1]) = TRUE
              /\ UNCHANGED <<lo, hi>>
 
 TraceSpec == TraceInit /\ [][TraceNext]_<<l, lo, hi>>
